@@ -19,6 +19,16 @@ CHECKS = {
             "DESIGN.md 5 C11"),
 }
 
+CHECKS["C17"] = ("MultiMap.tla, TraceMultiMap.tla",
+    "TLC exhaustive model check of both internal representations and every mutator's algorithm (invariants Consistent, "
+    "ViewsAgree, PostConditions); every (state, operation) edge replayed on the real MutableMultiMapping under several "
+    "concretisations; random long sequences validated by TLC against TraceMultiMap.tla",
+    "All operation sequences from every initial pair list within the bounds (2-3 keys x 2 values, lists <= 4-5) are "
+    "covered edge by edge; after each real call the views are compared with the plain list-of-pairs meaning, and "
+    "QueryParams/FormData/str round trips are checked on the same pairs.",
+    "Trusted: TLC, the driver's abstraction function (multi_items / items / iteration order), urllib's parse_qsl/urlencode.",
+    "DESIGN.md 5 C17")
+
 NOT_YET = {}
 
 ALL = ["C%02d" % i for i in range(1, 21)]
